@@ -42,8 +42,10 @@ func swappableCallers(c *core.Ctx) map[string][]string {
 			id := an.CalleeID(ci)
 			for _, m := range swappableMutators {
 				if id == "db.SwappableDB."+m {
-					name := core.FuncName(an.TopFunc(fn))
-					out[name] = append(out[name], m)
+					// a helper called only from a reviewed path is part of that path
+					for _, name := range accountable(c, fn, func(n string) bool { _, ok := swappableAllowed[n]; return ok }) {
+						out[name] = append(out[name], m)
+					}
 				}
 			}
 		})
